@@ -36,6 +36,7 @@
 ; what calling an element with no value yields (its converted default, the raw default, or NotPassed): C05's clause,
 ; characterised by the contract of Element.__call__ / Object.__new__
 (declare-fun dflt (V) V)
+(declare-fun lit_of (V) V)        ; _parse_literal(x): the literal with annotation keys stripped (a function of the value)
 (declare-fun item_anns (V) V)     ; Array.item_annotations of an array element (function of the element between writes)
 (declare-fun ann (V) String)      ; the annotation text of an element (Element.annotation under dynamic dispatch)
 ; Properties.__getitem__(k): the property governing key k
